@@ -41,7 +41,7 @@ func fromRef(r ref.M3) matrix.Matrix3 {
 type Prim struct {
 	Name       string     `json:"name,omitempty"`
 	R, G, B, W [2]float32 // chromaticities as float32 (what the API takes)
-	WY         float32    `json:"white_luminance,omitempty"` // luminance of the white point (0 means 1)
+	WY         float32    `json:"white_luminance,omitempty"`    // luminance of the white point (0 means 1)
 	PY         [3]float32 `json:"primary_luminances,omitempty"` // luminance fields passed with the three primaries (0 means 1); only their chromaticities matter
 }
 
@@ -61,13 +61,13 @@ func (p Prim) wy() float32 {
 }
 
 type MatCase struct {
-	Op string        `json:"op"`
+	Op string `json:"op"`
 	// Exp10: the matrices A and B (and V) are multiplied by 10^Exp10 before the call, so that well-conditioned
 	// matrices of very small or very large magnitude are covered (the oracle is relative)
-	Exp10 int `json:"exp10,omitempty"`
-	A  [3][3]float64 `json:"a"` // row-major
-	B  [3][3]float64 `json:"b,omitempty"`
-	V  [3]float64    `json:"v,omitempty"`
+	Exp10 int           `json:"exp10,omitempty"`
+	A     [3][3]float64 `json:"a"` // row-major
+	B     [3][3]float64 `json:"b,omitempty"`
+	V     [3]float64    `json:"v,omitempty"`
 }
 
 var published = []Prim{
